@@ -156,6 +156,29 @@ func (c *Ctx) indexKeySites() []keySite {
 				continue
 			}
 			pos := c.P.Pos(call.Pos())
+			// a closure of a wrapper method that captured the receiver (walkAccountTxs(txs, func(..) { idx.data.Delete(..) })):
+			// the operation belongs to the method
+			if fn.Parent() != nil {
+				top := fn
+				for top.Parent() != nil {
+					top = top.Parent()
+				}
+				if top.Signature.Recv() != nil && len(top.Params) > 0 {
+					b := core.Strip(base)
+					if u, isU := b.(*ssa.UnOp); isU {
+						b = u.X
+					}
+					if fv, isFV := b.(*ssa.FreeVar); isFV && fv.Name() == top.Params[0].Name() {
+						owner := core.RecvTypeName(top.Params[0].Type())
+						if fld == "data" {
+							methodSum[top] = append(methodSum[top], sum{o.Name(), class, pos})
+						} else {
+							out = append(out, keySite{owner + "." + fld, o.Name(), class, pos, shortFn(top)})
+						}
+						continue
+					}
+				}
+			}
 			// receiver-rooted: fn is a method of the wrapper
 			if p, isP := core.Strip(base).(*ssa.Parameter); isP && len(fn.Params) > 0 && p == fn.Params[0] && fn.Signature.Recv() != nil {
 				// wrappers owning the tree directly (txLiveTimeMap.index): the identity is the wrapper type's field
